@@ -585,6 +585,9 @@ def run_refit(req):
             o = UnsupervisedOPF(min_k=1, max_k=cfg["max_k"])
         elif model == "knn":
             o = KNNSupervisedOPF(max_k=cfg["max_k"])
+        elif model == "semi":
+            from opfython.models.semi_supervised import SemiSupervisedOPF
+            o = SemiSupervisedOPF()
         else:
             o = SupervisedOPF()
         o.distance_fn = table
@@ -595,6 +598,8 @@ def run_refit(req):
         Y = np.array([labels[i] for i in rows], dtype=int)
         if model == "knn":
             o.fit(X, Y, X, Y)
+        elif model == "semi":
+            o.fit(X[:-1], Y[:-1], X[-1:])
         else:
             o.fit(X, Y)
 
@@ -603,19 +608,26 @@ def run_refit(req):
         s = dict(cost=[float(nd.cost) for nd in g.nodes], pred=[int(nd.pred) for nd in g.nodes],
                  plab=[int(nd.predicted_label) for nd in g.nodes], status=[int(nd.status) for nd in g.nodes],
                  order=[int(x) for x in list(g.idx_nodes)[-g.n_nodes:]], n=int(g.n_nodes))
-        if model != "sup":
+        if model not in ("sup", "semi"):
             s.update(clus=[int(nd.cluster_label) for nd in g.nodes], root=[int(nd.root) for nd in g.nodes],
                      dens=[float(nd.density) for nd in g.nodes], best_k=int(g.best_k), constant=float(g.constant),
                      mind=float(g.min_density), maxd=float(g.max_density))
         if model == "uns":
             s["n_clusters"] = int(g.n_clusters)
         return s
+    mid = cfg.get("mid_predict", False)
+    Xq = np.array([[float(max(n1, n2))]])
     used = mk()
-    fit(used, list(range(n1)))
+    fit(used, [(i + 1) % n1 for i in range(n1)] if mid else list(range(n1)))
+    if mid:
+        used.predict(Xq)
     fit(used, list(range(n2)))
     fresh = mk()
     fit(fresh, list(range(n2)))
     a, b = state(used), state(fresh)
+    if mid:
+        a["prediction"] = [int(x) for x in used.predict(Xq)]
+        b["prediction"] = [int(x) for x in fresh.predict(Xq)]
     bad = ["refit-equals-fit-of-a-never-used-model:%s" % k for k in b if a[k] != b[k]]
     return dict(obs=dict(used=a, fresh=b), violated=bad)
 
